@@ -26,6 +26,9 @@ PASS_THROUGH = re.compile(
     r"|^std::vec::Vec::<.*>::(as_slice|as_mut_slice)$|^std::string::String::(as_str|as_bytes)$"
     r"|^std::slice::<impl \[.*\]>::to_vec$|^<.* as std::borrow::ToOwned>::to_owned$"
     r"|^std::mem::take::<.*>$"
+    r"|^std::sync::(Mutex|RwLock)::<.*>::(lock|try_lock|read|write|try_read|try_write)$"
+    r"|^std::collections::hash_map::Entry::<.*>::(or_insert_with|or_insert|or_default)(::<.*>)?$"
+    r"|^std::collections::HashMap::<.*>::(entry|get_mut|get)(::<.*>)?$"
     r"|^<.* as std::iter::IntoIterator>::into_iter$|^<.* as std::iter::Iterator>::(next|enumerate|skip|take|rev|peekable|by_ref|cloned|copied)(::<.*>)?$"
     r"|^<.* as std::iter::DoubleEndedIterator>::(next_back|rev)$"
     r")")
